@@ -12,7 +12,7 @@ from ..regions import Box, lt
 CASE_SPLIT = True     # orderings between different grid sizes are analysed case by case (regions.run_under_size_cases)
 
 
-from .common import pin_indices, refine, match_spec
+from .common import pin_indices, refine, match_spec, filter_orders, entry_by_label
 
 
 def select(tier):
@@ -22,8 +22,8 @@ def select(tier):
                 continue
             if e.opts.get("width", 1) > 2 and "at_boundaries" in e.gen:
                 continue
-            if e.opts.get("filter_order", 1) > 2:
-                continue
+        if "filter_order" in e.opts and e.opts["filter_order"] not in filter_orders(tier, e.opts.get("field_type", "scalar")):
+            continue
         yield e
 
 
@@ -80,18 +80,23 @@ def check_entry(S, e, rep, pid="C13", rules=("a", "b", "c")):
     return sm
 
 
+def entry_worker(S, label, rep):
+    check_entry(S, entry_by_label(label), rep)
+
+
 def run(S, tier, rep):
     rep.rule_text = ("one instance per (public generator x option combination x output array): the resolved summary of the "
                      "returned callable (symbolic execution of its op trace over arbitrary array contents, wrapper plumbing "
                      "inlined) must equal the documented closed form on the documented region; other arguments unchanged")
     rep.explanation = ("C13.a formula equality of normal forms; C13.b region (interior/ring/zones) with asymptotic bound ordering; "
                        "C13.c write set; C13.call: the call itself must not raise (arity/broadcast/shape)")
-    n = 0
     gens = set()
-    for e in select(tier):
-        check_entry(S, e, rep)
+    entries = list(select(tier))
+    from .simtools import parallel_over
+    parallel_over(S, rep, "sa.props.c13", "entry_worker", [e.label() for e in entries])
+    for e in entries:
         gens.add(e.gen)
-        n += 1
+    n = len(entries)
     rep.note("catalogue_entries", n)
     rep.note("generators", sorted(gens))
     rep.require_min("C13.a", 60)
